@@ -146,4 +146,25 @@ theorem GLX_congr (mc1 mc2 : Compound → Ctx → Bool) :
     · exact ⟨a, q2, b, (ih' q2 p).2 hh⟩
   | case7 => intro _ q p; simp [GLX]
 
+
+theorem GLX_mono (mc1 mc2 : Compound → Ctx → Bool) (hm : ∀ c q, mc1 c q = true → mc2 c q = true) :
+    ∀ (X : Complex) (q p : Ctx), GLX mc1 X q p → GLX mc2 X q p := by
+  intro X
+  fun_induction fwd X with
+  | case1 => intro q p h; simp [GLX] at h
+  | case2 c => intro q p h; simp only [GLX] at h ⊢; exact ⟨h.1, hm _ _ h.2⟩
+  | case3 c cb rest d ds _ ih =>
+    intro q p h; simp only [GLX] at h ⊢
+    obtain ⟨a, q2, b, hh⟩ := h; exact ⟨hm _ _ a, q2, b, ih q2 p hh⟩
+  | case4 c cb rest _ ih =>
+    intro q p h; simp only [GLX] at h ⊢
+    obtain ⟨a, q2, b, hh⟩ := h; exact ⟨hm _ _ a, q2, b, ih q2 p hh⟩
+  | case5 c d rest d' ds _ ih =>
+    intro q p h; simp only [GLX] at h ⊢
+    obtain ⟨a, q2, b, hh⟩ := h; exact ⟨hm _ _ a, q2, b, ih q2 p hh⟩
+  | case6 c d rest _ ih =>
+    intro q p h; simp only [GLX] at h ⊢
+    obtain ⟨a, q2, b, hh⟩ := h; exact ⟨hm _ _ a, q2, b, ih q2 p hh⟩
+  | case7 => intro q p h; simp [GLX] at h
+
 end Grass.Selector
